@@ -70,16 +70,16 @@ def ref_no_extend(A):
 
 
 # ---------------------------------------------------------------- checks
-def check_pair(acc, s1, s2):
+def check_pair(acc, s1, s2, sch1='s', sch2='r'):
     m = lib()
-    A = common.ref_of_dfa_spec(s1, 's')
-    B = common.ref_of_dfa_spec(s2, 'r')
+    A = common.ref_of_dfa_spec(s1, sch1)
+    B = common.ref_of_dfa_spec(s2, sch2)
     acc.states += 1
     for name, op in OPS.items():
-        rp = {'fn': 'mc.props.c14:one_pair', 'mode': 'plain', 'params': {'s1': s1, 's2': s2}}
-        inst = {'D1': s1, 'D2': s2, 'op': name}
-        D1 = spaces.build_dfa(s1, 's')
-        D2 = spaces.build_dfa(s2, 'r')
+        rp = {'fn': 'mc.props.c14:one_pair', 'mode': 'plain', 'params': {'s1': s1, 's2': s2, 'sch1': sch1, 'sch2': sch2}}
+        inst = {'D1': s1, 'D2': s2, 'names': [sch1, sch2], 'op': name}
+        D1 = spaces.build_dfa(s1, sch1)
+        D2 = spaces.build_dfa(s2, sch2)
         ok, D = core.lib_call(acc, name, inst, getattr(m, name), D1, D2, repro=rp)
         acc.transitions += 1
         if not ok:
@@ -96,11 +96,13 @@ def check_pair(acc, s1, s2):
     if la is not None:
         acc.nontrivial += 1
         if s1[1] >= 2:
-            acc.sample({'D1': spaces.dfa_parts(s1, 's'), 'D2': spaces.dfa_parts(s2, 'r'), 'shortest_word_in_symmetric_difference': la})
+            acc.sample({'D1': spaces.dfa_parts(s1, sch1), 'D2': spaces.dfa_parts(s2, sch2), 'shortest_word_in_symmetric_difference': la})
 
 
-def one_pair(acc, s1, s2):
-    check_pair(acc, s1, s2)
+def one_pair(acc, s1, s2, sch1='s', sch2='r'):
+    def tl(x):
+        return tuple(tl(y) for y in x) if isinstance(x, list) else x
+    check_pair(acc, tl(s1), tl(s2), sch1, sch2)
 
 
 UNARY = {
@@ -278,11 +280,11 @@ def one_helper(acc, bits=None, bits2=None, words=None):
     check_helpers(acc, 0, 1) if bits is None else check_helpers(acc, bits, 256)
 
 
-def t_pairs(acc, n1, n2, k, shard, nshard, stride=1, offset=0):
+def t_pairs(acc, n1, n2, k, shard, nshard, stride=1, offset=0, sch1='s', sch2='r'):
     size2 = spaces.dfa_size(n2, k)
     total = spaces.dfa_size(n1, k) * size2
     for idx in range((offset % stride) + shard * stride, total, nshard * stride):
-        check_pair(acc, spaces.dfa_spec(n1, k, idx // size2), spaces.dfa_spec(n2, k, idx % size2))
+        check_pair(acc, spaces.dfa_spec(n1, k, idx // size2), spaces.dfa_spec(n2, k, idx % size2), sch1, sch2)
 
 
 def t_unary(acc, n, k, shard, nshard, scheme='s', stride=1, offset=0):
@@ -300,9 +302,9 @@ def plan(tier, seed):
     tasks = []
     P = 'mc.props.c14:'
 
-    def pairs(n1, n2, k, nshard, stride=1):
+    def pairs(n1, n2, k, nshard, stride=1, **kw):
         for s in range(nshard):
-            tasks.append(('plain', P + 't_pairs', {'n1': n1, 'n2': n2, 'k': k, 'shard': s, 'nshard': nshard, 'stride': stride, 'offset': seed}))
+            tasks.append(('plain', P + 't_pairs', dict({'n1': n1, 'n2': n2, 'k': k, 'shard': s, 'nshard': nshard, 'stride': stride, 'offset': seed}, **kw)))
 
     def unary(n, k, nshard, scheme='s', stride=1):
         for s in range(nshard):
@@ -323,9 +325,14 @@ def plan(tier, seed):
     unary(2, 2, 1, 'q')
     unary(3, 1, 1, 'q')
     unary(2, 1, 1, 'x')
-    for sch in ('t', 'd', 'f', 'u', 'g', 'K'):
+    for sch in ('t', 'd', 'f', 'u', 'g', 'K', 'b', 'n'):
         unary(2, 2, 1, sch)
         unary(3, 1, 1, sch)
+    # wave 6: operand names as the library's own constructions produce them ({q0,q1}, (s0,r0)), on either side
+    for (a_, b_) in (('b', 'r'), ('s', 'b'), ('n', 'u'), ('f', 't'), ('b', 'n')):
+        pairs(2, 2, 1, 1, sch1=a_, sch2=b_)
+        pairs(1, 2, 2, 1, sch1=a_, sch2=b_)
+        pairs(2, 1, 2, 1, sch1=a_, sch2=b_)
     unary(4, 2, 64, 's', stride=16 if tier == 'quick' else 1)
     total(1, 1, 1), total(1, 2, 1), total(2, 1, 1), total(2, 2, 2)
     for s in range(8):
